@@ -23,15 +23,17 @@ package altair
 //@ sort SCPT = SignedContributionAndProof
 //@ sort ContribT = SyncCommitteeContribution
 //@ sort CPubP = *common.CachedPubkey
-//@ ufun sync_is_aggregator(SpecP, SigT) bool
+// is_sync_committee_aggregator: the first eight bytes (little-endian) of hash(selection proof), modulo
+// max(1, SYNC_COMMITTEE_SIZE // SYNC_COMMITTEE_SUBNET_COUNT (4) // TARGET_AGGREGATORS_PER_SYNC_SUBCOMMITTEE (16)), are 0
+//@ define sync_is_aggregator(spec SpecP, sig SigT) bool = (let h := sha256(seq(sig)) in (h[0] + h[1] * 256 + h[2] * 65536 + h[3] * 16777216 + h[4] * 4294967296 + h[5] * 1099511627776 + h[6] * 281474976710656 + h[7] * 72057594037927936) % max(1, spec.SYNC_COMMITTEE_SIZE / 4 / 16) == 0)
 //@ ufun sync_sel_ok(int, SpecP, EpcP, VIdx, SigT, SlotT, int) bool
 //@ ufun scp_sig_ok(int, SpecP, EpcP, SCPT) bool
 //@ sort CPubsT = []*common.CachedPubkey
 //@ ufun contrib_sig_ok(int, SpecP, CPubsT, ContribT) bool
 
 //@ func IsSyncCommitteeAggregator(spec, sig) r
-//@   trusted
-//@   opt noalloc
+//@   property C12
+//@   requires spec != nil
 //@   ensures r == sync_is_aggregator(spec, sig)
 
 //@ func ValidateSyncAggregatorSelectionProof(spec, epc, domainFn, aggregator, selectionProof, slot, subcommitteeIndex) err
